@@ -51,10 +51,16 @@ fn table_texts(blocks: &[GraphBlock], options: &MarkdownOptions, out: &mut Vec<S
 
 /// table oracle for one note of a graph: texts of its tables in rendering order
 pub fn tables_of(graph: &Graph, key: &Key, options: &MarkdownOptions) -> Vec<String> {
+    tables_of_at(graph, key, &key.parent(), options)
+}
+
+/// the same for the note written into the directory `dir` (a rename moves a note: the note links in
+/// its table cells are written relative to the new place)
+pub fn tables_of_at(graph: &Graph, key: &Key, dir: &str, options: &MarkdownOptions) -> Vec<String> {
     let mut out = vec![];
     let r = catch_unwind(AssertUnwindSafe(|| {
         let tree = (&*graph).collect(key);
-        let blocks = Projector::project(tree.iter(), &key.parent());
+        let blocks = Projector::project(tree.iter(), dir);
         let mut v = vec![];
         table_texts(&blocks, options, &mut v);
         v
